@@ -214,7 +214,7 @@ def _run_unamb(ctx, spec, rng):
     cplx = bool((r // 2) % 2)
     field = "complex" if cplx else "real"
     vecs = [gen.unit(rng, d, cplx) for _ in range(n)]
-    p = gen.prior(rng, n, 1 + r % 2)
+    p = gen.prior(rng, n, [1, 2, 3][r % 3])
     inp = [v.reshape(-1, 1).copy() for v in vecs] if r % 3 else [v.copy() for v in vecs]
     # solver configuration: cvxopt's default accuracy makes its KKT solver break down (ZeroDivisionError) on most of these programs;
     # with the documented pass-through option abs_ipm_opt_tol = 1e-5 both forms return non-trivial values
